@@ -370,6 +370,9 @@ pub const TEXTS: &[&str] = &[
     "𠮷!(\"four-byte first character\");\ninfo!(\"after\");\n",
     "fn f() { 日本!(\"three-byte\"); 𝒳y!(\"math letter\"); a𠮷!(\"later\"); }\n",
     "\u{10000}!(\"first supplementary-plane letter\")",
+    // ordinary shape: many wildcard route strings, i.e. many `/*` that are never closed
+    "fn routes() {\n    mount(\"/static/*\"); mount(\"/a/*\"); mount(\"/b/*\"); mount(\"/c/*\"); mount(\"/d/*\");\n    mount(\"/e/*\"); mount(\"/f/*\"); mount(\"/g/*\"); mount(\"/h/*\"); mount(\"/i/*\");\n    mount(\"/j/*\"); mount(\"/k/*\"); mount(\"/l/*\"); mount(\"/m/*\"); mount(\"/n/*\");\n    mount(\"/o/*\"); mount(\"/p/*\"); mount(\"/q/*\"); mount(\"/r/*\"); mount(\"/s/*\");\n    mount(\"/t/*\"); mount(\"/u/*\"); mount(\"/v/*\"); mount(\"/w/*\"); mount(\"/x/*\");\n    mount(\"/y/*\"); mount(\"/z/*\"); mount(\"/0/*\"); mount(\"/1/*\"); mount(\"/2/*\");\n    info!(\"routes mounted\");\n}\n",
+    "let globs = [\"**/*.rs\", \"src/**/*\", \"*/*/*\", \"/*\", \"/*\", \"/*\", \"/*\", \"/*\", \"/*\", \"/*\", \"/*\", \"/*\", \"/*\", \"/*\", \"/*\", \"/*\", \"/*\", \"/*\", \"/*\", \"/*\", \"/*\", \"/*\", \"/*\", \"/*\", \"/*\"];\nwarn!(\"globs {}\", 1);\n",
     "info!(target: \"t\", a = 1, b:? = c; \"m {}\", 1);\n",
     "info!(\"\\\\\"); warn!(\"\\\"\");",
     "info!(a = \"unterminated; \"m\")",
